@@ -57,6 +57,29 @@ M2('c10-value-tail-stripped-with-uri-alphabet', 'C10', 'R1', [
 M('c10-strip-once-drops-tail', 'C10', 'R1', U,
   "        encoded_uri = uri.encode()\n", "        head = uri.rstrip(allowed_chars)\n        encoded_uri = head.encode()\n", also=('C15',))
 
+# R1 wave 6: a second char table that lets '%' through
+# seeded change s6-c15-1: the already-escaped test runs whenever the string contains '%'; when every %XX is well
+# formed only the OTHER characters are encoded: encode_check_escaped('/report 100%20done') == '/report%20100%20done'
+WIDE = {'file': U, 'old': "    encode_char = _create_char_encoder(allowed_chars)\n",
+        'new': "    encode_char = _create_char_encoder(allowed_chars)\n"
+               "    encode_unescaped_char = _create_char_encoder(allowed_chars_plus_percent)\n"}
+M2('c10-escaped-partial-keeps-percent', 'C10', 'R1', [
+    WIDE,
+    {'file': U, 'old': "        if check_is_escaped and not uri.rstrip(allowed_chars_plus_percent):", 'new': "        if check_is_escaped and '%' in uri:"},
+    {'file': U, 'old': "                # encoded.\n                return uri\n",
+     'new': "                # encoded.\n                return ''.join(map(encode_unescaped_char, uri.encode()))\n"}],
+   also=('C15',))
+# the wide table used for every string of the check-escaped encoders that needs encoding (no well-formedness test at all)
+M2('c10-check-escaped-never-encodes-percent', 'C10', 'R1', [
+    WIDE,
+    {'file': U, 'old': "        encoded_uri = uri.encode()\n",
+     'new': "        encoded_uri = uri.encode()\n        if check_is_escaped:\n"
+            "            return ''.join(encode_unescaped_char(b) for b in encoded_uri)\n"}],
+   also=('C15',))
+# the guard alone: any string with well-formed escapes is returned as it is, whatever else it contains
+M('c10-escaped-shortcut-on-any-percent', 'C10', 'R1', U,
+  "        if check_is_escaped and not uri.rstrip(allowed_chars_plus_percent):", "        if check_is_escaped and '%' in uri:", also=('C15',))
+
 # ----------------------------------------------------------------------- R2
 M('c10-escape-lowercase', 'C10', 'R2', U, "'%{0:02X}'.format(code_point)", "'%{0:02x}'.format(code_point)")
 M('c10-escape-unpadded', 'C10', 'R2', U, "'%{0:02X}'.format(code_point)", "'%{0:X}'.format(code_point)")
@@ -128,6 +151,24 @@ M('c10-inline-path-wrong-except', 'C10', 'R4', U,
                 # malformed percentage like "x=%" or "y=%+"
                 reencoded_uri += b'%' + token""", also=('C08',))
 M('c10-split-on-str-codec', 'C10', 'R4', U, "    reencoded_uri = decoded_uri.encode()\n", "    reencoded_uri = decoded_uri.encode('ascii', 'replace')\n")
+
+# R4 wave 6: every '%' starts a token - the tokenisation is unbounded
+# seeded change s6-c10-2: "hardening" cap on the number of fragments; everything after the 1024th '%' stays undecoded
+M2('c10-decode-split-capped', 'C10', 'R4', [
+    {'file': U, 'old': "_HEX_DIGITS = '0123456789ABCDEFabcdef'\n", 'new': "_HEX_DIGITS = '0123456789ABCDEFabcdef'\n_MAX_DECODE_TOKENS = 1024\n"},
+    {'file': U, 'old': "    tokens = reencoded_uri.split(b'%')\n", 'new': "    tokens = reencoded_uri.split(b'%', _MAX_DECODE_TOKENS)\n"}])
+M('c10-decode-split-maxsplit-keyword', 'C10', 'R4', U,
+  "    tokens = reencoded_uri.split(b'%')\n", "    tokens = reencoded_uri.split(b'%', maxsplit=255)\n")
+# the cap applied to the token list instead: the tail of the text is dropped
+M('c10-decode-token-list-truncated', 'C10', 'R4', U,
+  "    tokens = reencoded_uri.split(b'%')\n", "    tokens = reencoded_uri.split(b'%')\n    tokens = tokens[:1024]\n")
+M('c10-decode-token-list-del-tail', 'C10', 'R4', U,
+  "    tokens = reencoded_uri.split(b'%')\n", "    tokens = reencoded_uri.split(b'%')\n    del tokens[1024:]\n")
+M('c10-joiner-gets-token-prefix', 'C10', 'R4', U, "    return _join_tokens(tokens)\n", "    return _join_tokens(tokens[:4096])\n")
+M('c10-bytearray-path-loop-bounded', 'C10', 'R4', U,
+  """    decoded_uri = bytearray(tokens[0])
+    for token in tokens[1:]:""", """    decoded_uri = bytearray(tokens[0])
+    for token in tokens[1:1024]:""")
 
 # ----------------------------------------------------------------------- R5
 M('c10-escaped-accept-after-break', 'C10', 'R5', U,
